@@ -982,8 +982,21 @@ func sendEOFTolerated(c *core.Ctx) {
 			if !failed {
 				return
 			}
-			// an abort: the Send error itself is what the call returns
-			if ret == nil || len(ret.Results) == 0 || astx.ObjOf(info, ret.Results[len(ret.Results)-1]) != sendErr {
+			// an abort: the Send error itself (or a plain copy of it: an inlined helper hands it
+			// back through its own result variable) is what the call returns
+			class := map[types.Object]bool{sendErr: true}
+			for _, st := range s.Steps {
+				if as, ok := st.(*ast.AssignStmt); ok && len(as.Lhs) == len(as.Rhs) {
+					for i, l := range as.Lhs {
+						if r := astx.ObjOf(info, as.Rhs[i]); r != nil && class[r] {
+							if lo := astx.ObjOf(info, l); lo != nil {
+								class[lo] = true
+							}
+						}
+					}
+				}
+			}
+			if ret == nil || len(ret.Results) == 0 || !class[astx.ObjOf(info, ret.Results[len(ret.Results)-1])] {
 				return
 			}
 			aborts++
@@ -1106,7 +1119,7 @@ func requestSpecSet(c *core.Ctx) {
 			return true
 		})
 	}
-	c.Floor("Request values built for handler code", sites, 2)
+	c.Floor("Request values built for handler code", sites, 1)
 }
 
 func optionsOrderPreserved(c *core.Ctx) {
